@@ -280,6 +280,10 @@ def gen_utl(rng, tier):
                 lines.append("UTL FROMHEX %s %s" % (h.encode().hex(), form))
             lines.append("UTL FROMHEX %s %s" % ((h + "a").encode().hex(), form))                  # odd number of digits
             lines.append("UTL FROMHEX %s %s" % ((h + "zz").encode().hex(), form))                 # invalid character
+    # white space inside valid hex: the helper must return exactly the decoded bytes (fewer than strlen/2)
+    for txt in ("01 02 03\n", "00 01 02 03 04 05 06 07", "dead beef\t", " a b c d ", "\n\n12\r\n34"):
+        for form in ("L", "C", "S"):
+            lines.append("UTL FROMHEX %s %s" % (txt.encode().hex(), form))
     lines += ["UTL FROMHEX NULL C", "UTL FROMHEX 00 S"]
     return lines
 
